@@ -90,6 +90,7 @@ class State:
         self.brk = False
         self.cont = False
         self.written = set()
+        self.last_merge = None
 
     def copy(self):
         s = State()
@@ -98,6 +99,7 @@ class State:
         s.path = list(self.path)
         s.ret, s.ret_val, s.brk, s.cont = self.ret, self.ret_val, self.brk, self.cont
         s.written = self.written      # shared on purpose: union over all branches
+        s.last_merge = self.last_merge
         return s
 
 
@@ -156,6 +158,7 @@ class Core:
         self.obl_names = set()
         self.goal_assumptions = set()
         self.read_log = None
+        self.heap_tag = "new"
         self.spec_value_cache = {}
         self.counter = itertools.count()
         self.binders = []               # stack of (z3 var, guard)
@@ -208,6 +211,11 @@ class Core:
             return
         fact = zbool(fact)
         if st is not None:
+            # facts established by executing a statement hold only where that statement is actually reached:
+            # under the branch conditions AND while no return/break/continue has happened on this path
+            live = self.live(st)
+            if not is_true(live):
+                fact = z3.Implies(zbool(live), fact)
             pc = self.path_cond(st)
             if pc is not None:
                 fact = z3.Implies(pc, fact)
@@ -222,6 +230,10 @@ class Core:
         if z3.is_expr(goal) and z3.is_and(goal) and depth < 3 and goal.num_args() > 1:
             for i, c in enumerate(goal.children()):
                 self.oblige_split(kind, "%s.%d" % (label, i), c, st, node, info, depth + 1)
+            return
+        if z3.is_expr(goal) and z3.is_implies(goal) and z3.is_and(goal.arg(1)) and depth < 3 and goal.arg(1).num_args() > 1:
+            for i, c in enumerate(goal.arg(1).children()):
+                self.oblige_split(kind, "%s.%d" % (label, i), z3.Implies(goal.arg(0), c), st, node, info, depth + 1)
             return
         self.oblige(kind, label, goal, st, node, info)
 
@@ -539,7 +551,7 @@ class Core:
         if key not in heap:
             heap[key] = self.initial_heap_arr(key)
         if self.read_log is not None:
-            self.read_log.append((key, heap[key].get_id()))
+            self.read_log.append((self.heap_tag, key, heap[key].get_id()))
         return heap[key]
 
     def initial_heap_arr(self, key):
@@ -664,6 +676,7 @@ class Core:
             heap[k] = a if a.eq(b) else z3.If(c, a, b)
         base.env = env
         base.heap = heap
+        base.last_merge = c
 
         def mflag(x, y):
             if is_true(x) and is_true(y):
